@@ -1,6 +1,276 @@
 import TantivyModel.Driver.Proto
+import TantivyModel.Model.SSTable.Search
+import TantivyModel.Model.SSTable.Merge
+/-!
+Line protocol of the C15 model (ordered-map spec + sstable block model).
+
+* `run <blockLen> <keys> <vals> <tables> <ops>` — one dictionary, many operations; the answer is
+  `;`-joined, one `spec~model` pair per operation (see `answer`).
+  keys: `,`-separated hex (`-` = empty key, `_` = no key); vals: naturals (`_` = none);
+  tables: `|`-separated explicit DFAs (`_` = none); ops: `;`-separated.
+* `decode <void|u64|range> <hex file>` — cross-decoding of a real sstable file.
+* `encode <blockLen> <keys>` — key bytes of every block as the model writes them.
+* `insert <blockLen> <keys>` — `ok` or `panic:<index of the rejected key>`.
+* `merge <sum|void> <keys/vals> …` — k-way merge, spec and model, with ordinal tables.
+* `shorter <left> <right>`, `pfxup <prefix>`, `lev <d> <query> <key>`, `cpl <a> <b>`, `lt <a> <b>`.
+-/
 namespace TantivyModel.Driver.C15
-/-- stub: the model for C15 is not built yet -/
-def handle : List String → String
+open TantivyModel TantivyModel.Proto TantivyModel.SSTable
+
+def keyList (s : String) : Option (List Key) :=
+  if s == "_" then some [] else (s.splitOn ",").mapM bytesOfHex
+
+def valList (s : String) : Option (List Nat) :=
+  if s == "_" then some [] else (s.splitOn ",").mapM (fun t => t.toNat?)
+
+def showKeys (ks : List Key) : String :=
+  if ks.isEmpty then "_" else ",".intercalate (ks.map hexOfBytes)
+
+def showNats (ns : List Nat) : String :=
+  if ns.isEmpty then "_" else ",".intercalate (ns.map toString)
+
+def parseBound (s : String) : Option Bound :=
+  match s.toList with
+  | ['u'] => some .unbounded
+  | 'i' :: r => (bytesOfHex (String.ofList r)).map .incl
+  | 'e' :: r => (bytesOfHex (String.ofList r)).map .excl
+  | _ => none
+
+def parseLimit (s : String) : Option (Option Nat) :=
+  if s == "n" then some none else s.toNat?.map some
+
+/-! digest of a stream of (ordinal, key, value): `count/first ordinal/fnv1a64` -/
+def fnvByte (h : UInt64) (b : UInt8) : UInt64 := (h ^^^ b.toUInt64) * 0x100000001b3
+
+def fnvNat (h : UInt64) (n : Nat) : UInt64 :=
+  (List.range 8).foldl (fun h i => fnvByte h (UInt8.ofNat ((n >>> (8 * i)) % 256))) h
+
+def fnvItem (h : UInt64) (it : Nat × Key × Nat) : UInt64 :=
+  let h := fnvNat h it.1
+  let h := fnvNat h it.2.1.length
+  let h := it.2.1.foldl fnvByte h
+  fnvNat h it.2.2
+
+def digest (items : List (Nat × Key × Nat)) : String :=
+  let h := items.foldl fnvItem 0xcbf29ce484222325
+  s!"{items.length}/{match items.head? with | some it => toString it.1 | none => "x"}/{h.toNat}"
+
+/-- spec stream with true ordinals -/
+def specItems (m : Assoc Nat) (p : Key → Bool) : List (Nat × Key × Nat) :=
+  (m.zipIdx.filter (fun e => p e.1.1)).map (fun e => (e.2, e.1.1, e.1.2))
+
+def showHit : Hit → String
+  | .exact o => s!"e{o}"
+  | .next o => if o = U64_MAX then "nmax" else s!"n{o}"
+
+def parseTable (s : String) : Option (Table × Nat) :=
+  match s.splitOn ":" with
+  | [n, start, acc, can, next] =>
+    match n.toNat?, start.toNat? with
+    | some n, some start =>
+      let bits := fun (t : String) => (t.toList.map (· == '1')).toArray
+      let runs := (next.splitOn ",").mapM (fun r =>
+        match r.splitOn "*" with
+        | [v] => v.toNat?.map (fun v => (v, 1))
+        | [v, c] => match v.toNat?, c.toNat? with | some v, some c => some (v, c) | _, _ => none
+        | _ => none)
+      match runs with
+      | some runs =>
+        let arr := runs.foldl (fun (a : Array Nat) r => a ++ (Array.replicate r.2 r.1)) #[]
+        if arr.size = n * 256 then some (⟨n, arr, bits acc, bits can⟩, start) else none
+      | none => none
+    | _, _ => none
+  | _ => none
+
+inductive AnyAut where
+  | pfx (p : Key)
+  | lev (d : Nat) (q : Key)
+  | tab (t : Table) (start : Nat)
+
+def parseAut (tables : Array (Table × Nat)) (s : String) : Option AnyAut :=
+  match s.toList with
+  | 'p' :: r => (bytesOfHex (String.ofList r)).map .pfx
+  | 'l' :: r =>
+    match (String.ofList r).splitOn "," with
+    | [d, q] => match d.toNat?, bytesOfHex q with | some d, some q => some (.lev d q) | _, _ => none
+    | _ => none
+  | 't' :: r => match (String.ofList r).toNat? with
+    | some i => (tables[i]?).map (fun t => .tab t.1 t.2)
+    | none => none
+  | _ => none
+
+def streamDigest (r : Option (List (Nat × Key × Nat))) : String :=
+  match r with | none => "panic" | some items => digest items
+
+def searchAnswer {σ} (A : Automaton σ) (m : Assoc Nat) (d : Dict Nat) (lo hi : Bound) : String :=
+  let spec := specItems m (fun k => matchLo lo k && matchHi hi k && A.accepts k)
+  s!"{digest spec}~{digest (d.search A lo hi)}"
+
+/-- one operation on spec `m` and block model `d` -/
+def answer (tables : Array (Table × Nat)) (m : Assoc Nat) (d : Dict Nat) (op : String) : String :=
+  match op.splitOn ":" with
+  | ["skip"] => "skip~skip"   -- an operation the harness could not express for the model
+  | ["get", k] =>
+    match bytesOfHex k with
+    | some k =>
+      let sh := fun (o : Option Nat) => match o with | some v => s!"some{v}" | none => "none"
+      s!"{sh (SSTable.get m k)}~{sh (d.get k)}"
+    | none => "bad-op"
+  | ["ord", k] =>
+    match bytesOfHex k with
+    | some k =>
+      let sh := fun (o : Option Nat) => match o with | some v => toString v | none => "none"
+      s!"{sh (SSTable.termOrd m k)}~{sh (d.termOrd k)}"
+    | none => "bad-op"
+  | ["orn", k] =>
+    match bytesOfHex k with
+    | some k => s!"{showHit (SSTable.termOrdOrNext m k)}~{showHit (d.termOrdOrNext k)}~{showHit (d.termOrdOrNextDelta k)}"
+    | none => "bad-op"
+  | ["o2t", o] =>
+    match o.toNat? with
+    | some o =>
+      let sh := fun (r : Option Key) => match r with | some k => "k" ++ hexOfBytes k | none => "none"
+      s!"{sh (SSTable.ordToTerm m o)}~{sh (d.ordToTerm o)}"
+    | none => "bad-op"
+  | ["val", o] =>
+    match o.toNat? with
+    | some o =>
+      let sh := fun (o : Option Nat) => match o with | some v => s!"some{v}" | none => "none"
+      s!"{sh (SSTable.valueAtOrd m o)}~{sh (d.valueAtOrd o)}"
+    | none => "bad-op"
+  | ["blk", k] =>
+    match bytesOfHex k with
+    | some k => match (d.locateKey k).bind d.blockAt with
+      | some b => s!"{b.firstOrd}"
+      | none => "none"
+    | none => "bad-op"
+  | ["rng", lo, hi, lim] =>
+    match parseBound lo, parseBound hi, parseLimit lim with
+    | some lo, some hi, some lim =>
+      let spec := specItems m (fun k => matchLo lo k && matchHi hi k)
+      s!"{digest spec}~{streamDigest (d.stream lo hi lim)}"
+    | _, _, _ => "bad-op"
+  | ["pfx", p, lim] =>
+    match bytesOfHex p, parseLimit lim with
+    | some p, some lim =>
+      let spec := specItems m (fun k => isPrefixOf p k)
+      let b := prefixBounds p
+      s!"{digest spec}~{streamDigest (d.stream b.1 b.2 lim)}"
+    | _, _ => "bad-op"
+  | ["aut", a, lo, hi] =>
+    match parseAut tables a, parseBound lo, parseBound hi with
+    | some (.pfx p), some lo, some hi => searchAnswer (prefixAutomaton p) m d lo hi
+    | some (.lev dist q), some lo, some hi => searchAnswer (levAutomaton q dist) m d lo hi
+    | some (.tab t s), some lo, some hi => searchAnswer (tableAutomaton t s) m d lo hi
+    | _, _, _ => "bad-op"
   | _ => "bad-op"
+
+def showRaw (kind : String) (b : RawBlock) : String :=
+  match b with
+  | .compressed _ => "Z"
+  | .plain payload =>
+    if kind == "void" then s!"P{showKeys (decodeBlockKeys payload)}/_"
+    else if kind == "u64" then
+      let r := loadU64Mono payload
+      s!"P{showKeys (decodeBlockKeys r.2)}/{showNats r.1}"
+    else
+      let r := loadRange payload
+      s!"P{showKeys (decodeBlockKeys r.2)}/{showNats (r.1.map (·.1))}/{showNats (r.1.map (·.2))}"
+
+def mergeInput (s : String) : Option (Assoc Nat) :=
+  match s.splitOn "/" with
+  | [ks, vs] =>
+    match keyList ks, valList vs with
+    | some ks, some vs => if ks.length = vs.length then some (ks.zip vs) else none
+    | _, _ => none
+  | _ => none
+
+def showOrdTable (t : List (Option Nat)) : String :=
+  if t.isEmpty then "_" else ",".intercalate (t.map (fun o => match o with | some v => toString v | none => "x"))
+
+def transpose (rows : List (List (Option Nat))) (n : Nat) : List (List (Option Nat)) :=
+  (List.range n).map (fun j => rows.map (fun r => r.getD j none))
+
+def handle : List String → String
+  | ["run", bl, ks, vs, tabs, ops] =>
+    match bl.toNat?, keyList ks, valList vs with
+    | some bl, some ks, some vs =>
+      if ks.length ≠ vs.length then "bad-op" else
+      let tables : Option (List (Table × Nat)) :=
+        if tabs == "_" then some [] else (tabs.splitOn "|").mapM parseTable
+      match tables with
+      | none => "bad-op"
+      | some tables =>
+        let m : Assoc Nat := ks.zip vs
+        let d := build bl m
+        ";".intercalate ((ops.splitOn ";").map (answer tables.toArray m d))
+    | _, _, _ => "bad-op"
+  | ["layout", bl, ks] =>
+    match bl.toNat?, keyList ks with
+    | some bl, some ks =>
+      let d := build bl (ks.map (fun k => (k, 0)))
+      ";".intercalate (d.blocks.map (fun b => s!"{b.firstOrd}:{b.entries.length}:{hexOfBytes b.sep}"))
+    | _, _ => "bad-op"
+  | ["decode", kind, h] =>
+    if kind != "void" && kind != "u64" && kind != "range" then "bad-op" else
+    match bytesOfHex h with
+    | some bs =>
+      match readBlocks bs.length bs with
+      | none => "truncated"
+      | some blocks =>
+        let n := bs.length
+        let foot := bs.drop (n - Gen.SSTABLE_FOOTER_LEN)
+        s!"{if blocks.isEmpty then "_" else ";".intercalate (blocks.map (showRaw kind))}|n={u64le (foot.drop 8)},v={u32le (foot.drop 16)}"
+    | none => "bad-op"
+  | ["encode", bl, ks] =>
+    match bl.toNat?, keyList ks with
+    | some bl, some ks =>
+      let bs := encodeBlocks bl ks
+      if bs.isEmpty then "_" else ",".intercalate (bs.map hexOfBytes)
+    | _, _ => "bad-op"
+  | ["insert", bl, ks] =>
+    match bl.toNat?, keyList ks with
+    | some bl, some ks =>
+      match firstRejected bl {} ks 0 with
+      | none => "ok"
+      | some i => s!"panic:{i}"
+    | _, _ => "bad-op"
+  | "merge" :: comb :: inputs =>
+    if comb != "sum" && comb != "void" && comb != "first" then "bad-op" else
+    match inputs.mapM mergeInput with
+    | some ms =>
+      let c : List Nat → Nat := if comb == "sum" then List.sum else if comb == "first" then (fun l => l.headD 0) else fun _ => 0
+      let spec := mergeSpec c ms
+      let model := kwayMerge c ms
+      let specTables := ms.map (fun m => ordMap m spec)
+      let rows := kmergeOrds (totalLen ms) (ms.map (fun _ => 0)) ms
+      -- model table of input j: new ordinals (round indices) at which input j was consumed
+      let modelTables := (List.range ms.length).map (fun j =>
+        (rows.zipIdx.filterMap (fun r => match r.1.getD j none with | some _ => some (some r.2) | none => none)))
+      let sh := fun (m : Assoc Nat) (ts : List (List (Option Nat))) =>
+        s!"{showKeys (keys m)}/{showNats (m.map (·.2))}/{"|".intercalate (ts.map showOrdTable)}"
+      s!"{sh spec specTables}~{sh model modelTables}"
+    | none => "bad-op"
+  | ["shorter", l, r] =>
+    match bytesOfHex l, bytesOfHex r with
+    | some l, some r => hexOfBytes (findShorter l r)
+    | _, _ => "bad-op"
+  | ["pfxup", p] =>
+    match bytesOfHex p with
+    | some p => hexOfBytes (prefixUpper p)
+    | none => "bad-op"
+  | ["lev", d, q, k] =>
+    match d.toNat?, bytesOfHex q, bytesOfHex k with
+    | some d, some q, some k => showBool ((levAutomaton q d).accepts k)
+    | _, _, _ => "bad-op"
+  | ["cpl", a, b] =>
+    match bytesOfHex a, bytesOfHex b with
+    | some a, some b => toString (cpl a b)
+    | _, _ => "bad-op"
+  | ["lt", a, b] =>
+    match bytesOfHex a, bytesOfHex b with
+    | some a, some b => showBool (lexLt a b)
+    | _, _ => "bad-op"
+  | _ => "bad-op"
+
 end TantivyModel.Driver.C15
